@@ -1,0 +1,28 @@
+// SPDX-License-Identifier: MIT OR Apache-2.0
+
+//! Verification hook H3b, compiled only with `--cfg p2panda_p2panda_verif` (off by default).
+//!
+//! Lets a deterministic simulator build the publish and subscribe halves of an ephemeral stream
+//! directly on top of a `GossipHandle`, without spawning a whole node.
+use p2panda_core::Topic;
+use p2panda_net::gossip::GossipHandle;
+use serde::{Deserialize, Serialize};
+
+use crate::streams::{EphemeralStreamPublisher, EphemeralStreamSubscription};
+
+pub use crate::forge::{Forge, OperationForge};
+
+/// Same as the crate-internal `ephemeral_stream` constructor used by `Node::ephemeral_stream`.
+///
+/// Only `forge.signing_key()` is used on this code path, the store behind the forge is never
+/// queried.
+pub fn ephemeral_stream<M>(
+    topic: Topic,
+    forge: OperationForge,
+    handle: GossipHandle,
+) -> (EphemeralStreamPublisher<M>, EphemeralStreamSubscription<M>)
+where
+    M: Serialize + for<'a> Deserialize<'a>,
+{
+    crate::streams::ephemeral_stream(topic, forge, handle)
+}
